@@ -57,4 +57,8 @@ def serverUnary {α β : Type} (dec : Bytes → Option α) (enc : β → Option 
       | some bytes => ({ status := .Success, headers := hInsert h headerContentType contentType, body := bytes }, 1)
       | none => ((Status.mk .InternalServerError (some []) []).intoResponse, 1)
 
+/-- what the generated client method does to the request it is handed before it calls the transport
+(`*request.route_mut() = <path>.into()`, unconditionally: pinned by the translator) -/
+def clientStamp (pkg svc m : Bytes) (req : Req) : Req := { req with route := clientPathGen pkg svc m }
+
 end Anemo
